@@ -107,18 +107,108 @@ def _front_rows():
     return rows
 
 
+ORD_SINKS = {RT + "load": [2], RT + "store": [3], RT + "rmw": [2, 3]}
+ORD_ROLE = {"ordering": "order"}
+
+
+def _ord_sinks(prog, fk, depth=0, memo=None):
+    """Where the Ordering parameters of front-end function fk end up: list of (runtime sink, argument index, source) with source
+    = ('ord', k) for fk's k-th Ordering parameter, followed through any number of forwarding layers inside sync::atomic
+    (so adding or removing an intermediate helper does not matter), ('const', X) / ('expr', ..) for anything else."""
+    memo = {} if memo is None else memo
+    if fk in memo:
+        return memo[fk]
+    memo[fk] = []
+    out = []
+    bodies = [fk] + list(prog.closures_of(fk))
+    for bk in bodies:
+        inst = prog.ident(bk)
+        if inst is None:
+            continue
+        body = prog.fns[bk].body
+        for (b, t, c) in prog.sites(inst):
+            ck = prog.callee_key(c)
+            if ck in ORD_SINKS:
+                for ai in ORD_SINKS[ck]:
+                    out.append((ck, ai, ordering_ordinal(prog, bk, body.expr_of_operand(t["args"][ai])), (bk, b)))
+            elif ck.startswith("sync::atomic::") and ck in prog.fns and prog.fns[ck].kind != "Closure" and depth < 6:
+                cps = params_of_type(prog.fns[ck], ORD_TY)
+                if not cps:
+                    continue
+                for (sink, ai, src, site) in _ord_sinks(prog, ck, depth + 1, memo):
+                    if src[0] == "ord" and src[1] < len(cps) and cps[src[1]] - 1 < len(t["args"]):
+                        src2 = ordering_ordinal(prog, bk, body.expr_of_operand(t["args"][cps[src[1]] - 1]))
+                        out.append((sink, ai, src2, (bk, b)))
+                    else:
+                        out.append((sink, ai, src, site))
+    memo[fk] = out
+    return out
+
+
+def _want_sinks(op):
+    if op == "load":
+        return {(RT + "load", 2, 0)}
+    if op == "store":
+        return {(RT + "store", 3, 0)}
+    if op in ("compare_exchange", "compare_exchange_weak", "try_rmw"):
+        return {(RT + "rmw", 2, 0), (RT + "rmw", 3, 1)}
+    if op == "compare_and_swap":
+        return {(RT + "rmw", 2, 0), (RT + "rmw", 3, "derived")}
+    if op == "fetch_update":
+        return {(RT + "load", 2, 1), (RT + "rmw", 2, 0), (RT + "rmw", 3, 1)}
+    return {(RT + "rmw", 2, 0), (RT + "rmw", 3, 0)}       # swap, fetch_*, with_mut-free RMWs
+
+
 def O1(ctx):
-    """Ordering pass-through for all three front-ends, through sync/atomic/atomic.rs into rt/atomic.rs."""
+    """Ordering pass-through, end to end: for every public atomic operation (all integer types, AtomicBool, AtomicPtr, and
+    the shared generic layer) each Ordering argument of the runtime entry points rt::atomic::Atomic::{load,store,rmw} is the
+    caller's corresponding Ordering parameter, whatever forwarding layers lie between; plus the hops inside rt::atomic."""
     prog = ctx.prog
     n = 0
-    for (m, callee, pairs) in LAYER1:
-        fk = L1 + m
-        if need_fn(ctx, "O1", fk) is None:
+    rows = []
+    for op in ("load", "store", "rmw", "swap", "compare_exchange", "compare_and_swap", "fetch_update", "try_rmw"):
+        if op == "try_rmw" and prog.fn(L1 + op) is None:
             continue
-        r = _passes(ctx, "O1", fk, callee, pairs)
+        rows.append((L1 + op, op))
+    for (fk, callee, pairs) in _front_rows():
+        rows.append((fk, fk.split("::")[-1]))
+    memo = {}
+    for (fk, op) in rows:
+        fn = prog.fn(fk)
+        if fn is None:
+            if "AtomicU64" in fk or "AtomicI64" in fk:
+                continue
+            ctx.missing("O1", fk)
+            continue
         n += 1
-        if r:
-            ctx.ok("O1", "%s->%s" % (fk, callee.split("::")[-1]), "ordering forwarded unmodified", [prog.fns[fk].loc()])
+        got = _ord_sinks(prog, fk, 0, memo)
+        want = _want_sinks(op)
+        ctx.touch(fk, len(got))
+        if not got:
+            ctx.bad("O1", fk, "%s no longer reaches the runtime atomic (rt::atomic::Atomic::load/store/rmw)" % fk, fn.loc(), detail="forward")
+            continue
+        seen = set()
+        ok = True
+        for (sink, ai, src, st) in got:
+            k = src[1] if src[0] == "ord" else ("derived" if (op == "compare_and_swap" and ai == 3) else "%s:%s" % (src[0], src[1]))
+            seen.add((sink, ai, k))
+            if (sink, ai, k) not in want:
+                ok = False
+                # reported at the function that contains the offending expression (one finding, not one per front-end)
+                where = enclosing_fn(st[0])
+                wfn = prog.fns[where]
+                pn = param_name(wfn, ORD_TY, 1 if (ai == 3 and len(params_of_type(wfn, ORD_TY)) > 1) else 0) or "order"
+                ctx.bad("O1", where, "the Ordering handed to %s (argument %d) is %s, not the caller's ordering parameter: the user's ordering "
+                        "is changed on the way to the runtime" % (sink.split("::")[-1], ai, k), site_str(prog, st[0], st[1]),
+                        detail=ORD_ROLE.get(pn, pn))
+        for w in sorted(want - seen, key=str):
+            if any((w[0], w[1]) == (g[0], g[1]) for g in seen):
+                continue            # already reported as a wrong source above
+            ok = False
+            ctx.bad("O1", fk, "%s no longer hands an ordering to %s (argument %d)" % (fk, w[0].split("::")[-1], w[1]), fn.loc(), detail="forward")
+        if ok:
+            ctx.ok("O1", fk, "orderings reach the runtime unmodified: %s" % sorted((s_.split("::")[-1], a, k) for (s_, a, k) in seen),
+                   [site_str(prog, got[0][3][0], got[0][3][1])])
     for (fk, callee, pairs) in LAYER3:
         if need_fn(ctx, "O1", fk) is None:
             continue
@@ -126,17 +216,7 @@ def O1(ctx):
         n += 1
         if r:
             ctx.ok("O1", "%s->%s" % (fk, callee.split("::")[-1]), "ordering forwarded unmodified", [prog.fns[fk].loc()])
-    for (fk, callee, pairs) in _front_rows():
-        if prog.fn(fk) is None:
-            if "AtomicU64" in fk or "AtomicI64" in fk:
-                continue
-            ctx.missing("O1", fk)
-            continue
-        r = _passes(ctx, "O1", fk, callee, pairs)
-        n += 1
-        if r:
-            ctx.ok("O1", fk, "ordering forwarded unmodified", [prog.fns[fk].loc()])
-    ctx.floor("O1", n, 150, "9 + 4 inner rows + 10x15 int + 11 bool + 7 ptr front-end methods")
+    ctx.floor("O1", n, 150, "7 generic-layer + 4 runtime rows + 10x15 int + 11 bool + 7 ptr front-end methods")
 
 
 def O2(ctx):
